@@ -93,6 +93,11 @@ func c04Tree(name string, depth int, sym bool) any {
 	case 2:
 		return []any{c04Tree(name+"0", depth-1, sym)}
 	case 3:
+		if !vh.Thorough() && !sym {
+			// quick tier, concrete leaves: the second element is a leaf (the product of two full
+			// subtrees is the thorough tier's)
+			return []any{c04Tree(name+"0", depth-1, sym), c04Leaf(name+"1", sym)}
+		}
 		return []any{c04Tree(name+"0", depth-1, sym), c04Tree(name+"1", depth-1, sym)}
 	case 4:
 		return map[string]any{}
